@@ -766,6 +766,7 @@ func (fr *Frame) run(args []Val, freeVars []Val, st *State, reach string) {
 	}
 	if q.opts != nil && q.opts.Cost {
 		q.get(st, "$ticks")
+		q.get(st, "$acc")
 		if fr.parent == nil && len(args) > 0 {
 			if fam, off, ok := q.eng.cursorOf(fn); ok {
 				q.peakFam, q.peakBase = fam, args[0].C[0]
